@@ -288,10 +288,12 @@ def manifold_invariants(seed, n, chain_len=None):
             if not abs(nn - 1.0) <= 1e-9:
                 bad('vertex quaternion norm %r after %d iterations' % (nn, iters), {'class': 'SE3', 'seed': seed, 'graph': i})
                 break
-    # normalize
-    for i in range(n):
+    # normalize: random quaternions plus fixed awkward ones (unit with w<0, identity negated, almost-unit, w = 0)
+    fixed_q = [[0.5, 0.5, 0.5, -0.5], [0.0, 0.0, 0.0, -1.0], [0.6, 0.0, 0.0, -0.8], [0.5, 0.5, 0.5, 0.5 * (1 + 1e-6)],
+               [0.5 * (1 - 1e-7), -0.5, 0.5, -0.5], [1.0, 0.0, 0.0, 0.0], [2.0, 0.0, 0.0, -2.0]]
+    for i in range(n + len(fixed_q)):
         evals += 1
-        q = [rng.gauss(0, 1) * rng.choice([1e-3, 1.0, 1e3]) for _ in range(4)]
+        q = fixed_q[i] if i < len(fixed_q) else [rng.gauss(0, 1) * rng.choice([1e-3, 1.0, 1e3]) for _ in range(4)]
         P = PoseSE3([1.0, 2.0, 3.0], q)
         R0 = hom('SE3', P.to_array())
         P.normalize()
